@@ -129,7 +129,7 @@ func init() {
 	// ---------------- C08 ----------------
 	harness.Register(&harness.Check{
 		ID: "C08", Level: "exploration",
-		Rule:        "all well-formed contractive environments (R-wf filter) of the C10 environment space; for each, all ordered pairs (S,T) and all triples from the candidate set {defined names, their bodies, bodies with one name unrolled, bodies with branches swapped, 1}; the real types.EqualType (fuel-instrumented) must return and agree with the reference greatest-fixpoint bisimulation R-eq; reflexivity, symmetry and transitivity are evaluated on the real answers over all pairs/triples; distinct_nontrivial = distinct (environment, S, T) with S != T textually",
+		Rule:        "all well-formed contractive environments (R-wf filter) of the C10 environment space; for each, all ordered pairs (S,T) and all triples from the candidate set {defined names, their bodies, bodies with one name unrolled, bodies with branches swapped, immediate subterms of bodies, 1, lin 1}; the real types.EqualType (fuel-instrumented) must return and agree with the reference greatest-fixpoint bisimulation R-eq; reflexivity, symmetry and transitivity are evaluated on the real answers over all pairs/triples; distinct_nontrivial = distinct (environment, S, T) with S != T textually",
 		Assumptions: []string{"R-eq compares modes of every node, shift mode pairs, and choice branches as label-indexed maps"},
 		Cases:       func(c *harness.Ctx) int { return chunks(wfSpace(c).total) },
 		Run: func(c *harness.Ctx, idx int, r *harness.Rec) {
@@ -416,6 +416,19 @@ func checkC08Env(e *ref.Env, r *harness.Rec) {
 		add(ref.AnnTy{Ann: hm.Ann, T: d.Body.T.Copy()})
 		add(ref.AnnTy{Ann: hm.Ann, T: swapBranches(d.Body.T)})
 		add(ref.AnnTy{Ann: hm.Ann, T: unrollOnce(e, d.Body.T)})
+		// immediate subterms of the same region (out-of-phase unfoldings of recursive definitions)
+		if d.Body.T.K != ref.KUp && d.Body.T.K != ref.KDown {
+			for _, sub := range []*ref.Ty{d.Body.T.L, d.Body.T.R} {
+				if sub != nil && sub.K != ref.KName && sub.K != ref.KUnit {
+					add(ref.AnnTy{Ann: hm.Ann, T: sub.Copy()})
+				}
+			}
+			for _, b := range d.Body.T.Br {
+				if b.T.K != ref.KName && b.T.K != ref.KUnit {
+					add(ref.AnnTy{Ann: hm.Ann, T: b.T.Copy()})
+				}
+			}
+		}
 	}
 	add(ref.AnnTy{T: ref.Unit()})
 	add(ref.AnnTy{Ann: ref.MLin, T: ref.Unit()})
